@@ -149,7 +149,7 @@ func (u *Universe) SpellOK(id string, sp int) bool {
 }
 
 // RefNames are the user-defined names used for LicenseRef / DocumentRef terms.
-var RefNames = []string{"a", "A", "b", "x1", "My-Ref.2", "MIT", "0"}
+var RefNames = []string{"a", "A", "b", "x1", "My-Ref.2", "my-ref.2", "MIT", "mit", "0", "FOO", "foo", "Foo", "Apache-2.0", "LicenseRef-x", "a.b-c.1"}
 
 // RandomTerm draws a term of a random kind.
 func (u *Universe) RandomTerm(r *Rand) Term {
